@@ -105,13 +105,17 @@ def check_eq_shape(ctx, pk, eq):
     ctx.unit('paths', len(paths))
     inst = ('isinstance(%s, %s.__class__)' % (oth, slf), 'isinstance(%s, type(%s))' % (oth, slf))
     neg_paths = [p for p in paths if any(('not ' + t) in p.guard_texts() for t in inst)]
-    if not neg_paths:
+    combined = [p for p in paths if p.end[0] == 'return' and result_kind(p.ret(), known_of(p), slf, oth, p) == 'INST&ALL']
+    if not neg_paths and combined:
+        ctx.holds(rule, eq, 'isinstance(other, self.__class__) and <all fields equal>', 'class test is part of the result', eq.node.lineno)
+    elif not neg_paths:
         ctx.violation(rule, eq, 'isinstance guard', 'no path tests isinstance(other, self.__class__): packets of different classes can compare equal or the comparison can raise', eq.node.lineno)
     else:
         ok = True
         for p in neg_paths:
             r = p.ret()
-            if not (p.end[0] == 'return' and isinstance(r, ast.Constant) and r.value is False):
+            known = known_of(p)
+            if not (p.end[0] == 'return' and result_kind(r, known, slf, oth, p) == 'F'):
                 ok = ctx.violation(rule, eq, 'not isinstance(other, self.__class__) -> %s' % p.describe()['end'], 'a non-instance must compare unequal (return False)', eq.node.lineno)
             if p.calls(lambda e: call_name(e.call) not in ('isinstance', 'type')):
                 ok = ctx.violation(rule, eq, 'not isinstance(other, self.__class__) path', 'fields are read before the class test', eq.node.lineno)
@@ -167,9 +171,145 @@ def check_eq_shape(ctx, pk, eq):
                 ctx.violation(rule, eq, 'loop over get_fields()', 'the loop never returns False: differing packets compare equal', lp.lineno)
         elif p.end[0] == 'raise':
             ctx.violation(rule, eq, label, '__eq__ raises on a path', eq.node.lineno)
-        elif p.end[0] in ('fall',) or (p.end[0] == 'return' and not isinstance(p.ret(), ast.Constant)):
+        elif p.end[0] == 'return' and not isinstance(p.ret(), ast.Constant):
+            if any('<in loop' in t for t in p.guard_texts()):
+                continue
+            known = known_of(p)
+            kind = result_kind(p.ret(), known, slf, oth, p)
+            tested = any(t in known for t in inst)
+            if (kind == 'ALL' and tested and any(known.get(t) for t in inst)) or (kind == 'INST&ALL' and not tested):
+                ctx.holds(rule, eq, label + ' -> %s' % canon(p.ret())[:120], 'true exactly when every field of get_fields() reads equal on both packets (same name, same default)', eq.node.lineno)
+            elif kind in ('T', 'INST') or (kind == 'ALL' and not tested):
+                ctx.violation(rule, eq, label + ' -> %s' % canon(p.ret())[:120], 'the result does not depend on %s' % ('the fields' if kind != 'ALL' else 'the class of the other object'), eq.node.lineno)
+            elif kind == 'F':
+                ctx.violation(rule, eq, label + ' -> %s' % canon(p.ret())[:120], 'packets of the same class always compare unequal on this path', eq.node.lineno)
+            else:
+                ctx.undecided(rule, eq, label + ' -> %s' % canon(p.ret())[:120], 'the rule cannot read this result as "every field compares equal"', eq.node.lineno)
+        elif p.end[0] in ('fall',):
             if not any('<in loop' in t for t in p.guard_texts()):
                 ctx.violation(rule, eq, label + ' -> %s' % p.describe()['end'], '__eq__ does not return True/False on this path', eq.node.lineno)
+
+
+def known_of(p):
+    """canonical text of every test the path decided -> its truth value"""
+    out = {}
+    for g, pol in p.guards:
+        while isinstance(g, ast.UnaryOp) and isinstance(g.op, ast.Not):
+            g, pol = g.operand, not pol
+        out[canon(g)] = pol
+    return out
+
+
+GETF = lambda slf: ('%s.get_fields()' % slf, '%s.__class__.get_fields()' % slf, 'type(%s).get_fields()' % slf)
+
+
+def _name_var_of(target):
+    """the variable bound to the field name by a loop / comprehension target over get_fields()"""
+    if isinstance(target, ast.Name):
+        return None                      # the whole tuple: not a name
+    if isinstance(target, (ast.Tuple, ast.List)) and target.elts and isinstance(target.elts[0], ast.Name):
+        return target.elts[0].id
+    return None
+
+
+def _cmp_reads(t, slf, oth, name_id, op):
+    if isinstance(t, ast.UnaryOp) and isinstance(t.op, ast.Not):
+        t = negate(t.operand)
+    if not (isinstance(t, ast.Compare) and len(t.ops) == 1 and isinstance(t.ops[0], op)):
+        return False
+
+    def rd(e):
+        if isinstance(e, ast.Call) and isinstance(e.func, ast.Name) and e.func.id == 'getattr' and len(e.args) >= 2 \
+                and isinstance(e.args[0], ast.Name) and isinstance(e.args[1], ast.Name) and e.args[1].id == name_id:
+            return e.args[0].id, (canon(e.args[2]) if len(e.args) > 2 else None)
+        return None
+    ra, rb = rd(t.left), rd(t.comparators[0])
+    return ra is not None and rb is not None and {ra[0], rb[0]} == {slf, oth} and ra[1] == rb[1]
+
+
+def result_kind(v, known, slf, oth, path=None):
+    """what a returned expression says: 'T' / 'F' / 'INST' (the class test) / 'ALL' (every field of
+    get_fields() compares equal) / 'INST&ALL' / None (not understood)"""
+    if v is None:
+        return None
+    if isinstance(v, ast.Constant) and isinstance(v.value, bool):
+        return 'T' if v.value else 'F'
+    t = canon(v)
+    if t in known:
+        return 'T' if known[t] else 'F'
+    nt = canon(negate(v))
+    if nt in known:
+        return 'F' if known[nt] else 'T'
+    if t in ('isinstance(%s, %s.__class__)' % (oth, slf), 'isinstance(%s, type(%s))' % (oth, slf)):
+        return 'INST'
+    inner, neg = v, False
+    if isinstance(v, ast.UnaryOp) and isinstance(v.op, ast.Not):
+        inner, neg = v.operand, True
+    if isinstance(inner, ast.Call) and isinstance(inner.func, ast.Name) and inner.func.id in ('any', 'all') and len(inner.args) == 1 \
+            and isinstance(inner.args[0], (ast.GeneratorExp, ast.ListComp)) and len(inner.args[0].generators) == 1:
+        g = inner.args[0].generators[0]
+        nv = _name_var_of(g.target)
+        if nv is not None and not g.ifs and canon(g.iter) in GETF(slf):
+            if inner.func.id == 'any' and neg and _cmp_reads(inner.args[0].elt, slf, oth, nv, ast.NotEq):
+                return 'ALL'
+            if inner.func.id == 'all' and not neg and _cmp_reads(inner.args[0].elt, slf, oth, nv, ast.Eq):
+                return 'ALL'
+        return None
+    if isinstance(v, ast.BoolOp) and isinstance(v.op, ast.And):
+        ks = [result_kind(x, known, slf, oth, path) for x in v.values]
+        if 'F' in ks:
+            return 'F'
+        if None in ks:
+            return None
+        ks = [k for k in ks if k != 'T']
+        if not ks:
+            return 'T'
+        if ks == ['ALL']:
+            return 'ALL'
+        if ks == ['INST']:
+            return 'INST'
+        if ks == ['INST', 'ALL']:
+            return 'INST&ALL'
+        return None
+    if isinstance(v, ast.Name) and '@phi' in v.id and v.id.endswith('out') and path is not None:
+        var, k = v.id.split('@phi')
+        k = int(k[:-3])
+        lp = next((e for e in path.effects if e.kind == 'loop' and e.sub['phi'] == k), None)
+        if lp is None or lp.sub['kind'] != 'for' or canon(lp.sub['iter']) not in GETF(slf):
+            return None
+        nv = _name_var_of(lp.sub['target'])
+        if nv is None or result_kind(lp.sub['entry'].get(var), known, slf, oth) != 'T':
+            return None
+        item0 = '<item of %d>[0]' % k
+        saw_false = False
+        for bp in lp.sub['body']:
+            val = bp.env.get(var)
+            unchanged = val is not None and canon(val) == '%s@phi%d' % (var, k)
+            if bp.end[0] in ('return', 'raise', 'continue'):
+                return None
+            if unchanged and bp.end[0] == 'fall':
+                continue
+            if isinstance(val, ast.Constant) and val.value is False and bp.guards:
+                g, pol = bp.guards[-1]
+                t_ = g if pol else negate(g)
+                if _cmp_reads(_unsubst(t_, item0, nv), slf, oth, nv, ast.NotEq):
+                    saw_false = True
+                    continue
+            return None
+        return 'ALL' if saw_false else None
+    return None
+
+
+def _unsubst(e, item_text, name):
+    """put the loop's name variable back where the walker wrote the item projection"""
+    import copy
+
+    class T(ast.NodeTransformer):
+        def visit_Subscript(self, n):
+            if canon(n) == item_text:
+                return ast.Name(id=name, ctx=ast.Load())
+            return self.generic_visit(n)
+    return T().visit(copy.deepcopy(e))
 
 
 def is_diff_test(t, slf, oth, name_e):
@@ -198,11 +338,12 @@ def check_total_reads(ctx, pk, readers):
     table = strategy_table(repo)
     any_undefaulted = False
     for fi in readers:
-        loops = reachable_loops(fi)
-        if not loops:
+        # every variable a loop or a comprehension of the reader binds may hold a field name
+        binders = [n for n in ast.walk(fi.node) if isinstance(n, (ast.For, ast.comprehension))]
+        if not binders:
             continue
-        for lp in loops:
-            names = [x.id for x in ast.walk(lp.target) if isinstance(x, ast.Name)]
+        names = sorted({x.id for b in binders for x in ast.walk(b.target) if isinstance(x, ast.Name)})
+        for lp in [fi.node]:
             sites = read_sites(lp, names)
             ctx.unit('read_sites', len(sites))
             for call, obj, nm, defaulted in sites:
